@@ -119,6 +119,7 @@ let rec algo_of s : algo = match lst s with
   | [Atom "closeafter"; k] -> AClosePositionsAfterDates (natx k)
   | [Atom "rollafter"; k] -> ARollPositionsAfterDates (natx k)
   | [Atom "replay"; k] -> AReplayTransactions (natx k)
+  | [Atom "useradjust"; a; f; u] -> AUserAdjust (num_of a, bool_of f, bool_of u)
   | [Atom "mock"; id; rs] -> AMock (natx id, List.map bool_of (lst rs))
   | Atom a :: _ -> failwith ("algo " ^ a)
   | _ -> failwith "algo"
